@@ -3,7 +3,7 @@
 
 usage: tools/benign_eval.py [--verify] [--jobs N] [--out FILE] DIR...
 Each DIR holds patch.diff (+ notes.md, and optionally compare.py next to it or one level up: a program printing a deterministic digest
-of end-to-end runs).  For every DIR a scratch git worktree of /repo's HEAD is made under a temporary directory (outside /repo and
+of end-to-end runs).  For every DIR a scratch copy of /repo's HEAD (git archive) is made under a temporary directory (outside /repo and
 /verif), with --verify compare.py is run on the clean tree, the patch is applied, the pinned suite and compare.py are run on the patched
 tree (150 passed, identical digest), and every check is run against the scratch tree; the worktree is removed afterwards.
 """
@@ -26,20 +26,21 @@ def evaluate(d, verify):
     tmp = pathlib.Path(tempfile.mkdtemp(prefix='benigneval_'))
     wt = tmp / 'wt'
     try:
-        rc, o = sh(['git', '-C', '/repo', 'worktree', 'add', '-q', '--detach', str(wt), 'HEAD'])
+        # scratch copy of /repo's HEAD (git archive: committed state only, no worktree registration, so parallel runs cannot collide)
+        wt.mkdir()
+        rc, o = sh(f'git -C /repo archive HEAD | tar -x -C {wt}')
         if rc:
-            return {**out, 'ok': False, 'error': 'worktree: ' + o}
+            return {**out, 'ok': False, 'error': 'archive: ' + o}
         env = {'PYTHONPATH': str(wt), 'PYTHONDONTWRITEBYTECODE': '1', 'MPLBACKEND': 'Agg'}
         cmp_ = next((p for p in (d / 'compare.py', d.parent / 'compare.py') if p.exists()), None)
         clean = None
         if verify and cmp_:
             rc, clean = sh([PY, str(cmp_)], cwd=wt, env=env, timeout=900)
             out['compare_clean_rc'] = rc
-        rc, o = sh(['git', 'apply', str(d / 'patch.diff')], cwd=wt)
+        rc, o = sh(['patch', '-s', '-p1', '-i', str(d / 'patch.diff')], cwd=wt)
         if rc:
             return {**out, 'ok': False, 'error': 'apply: ' + o}
-        rc, o = sh(['git', 'diff', '--stat'], cwd=wt)
-        out['files'] = re.findall(r'^\s*(\S+)\s+\|', o, re.M)
+        out['files'] = sorted(set(re.findall(r'^\+\+\+ b/(\S+)', (d / 'patch.diff').read_text(), re.M)))
         if verify:
             rc, o = sh([PY, '-m', 'pytest', '-q', '-p', 'no:cacheprovider', '--timeout=900', '--continue-on-collection-errors', '-n', '0'],
                        cwd=wt, env=env, timeout=1200)
@@ -67,9 +68,7 @@ def evaluate(d, verify):
         out['ok'] = False
         out['error'] = repr(e)
     finally:
-        sh(['git', '-C', '/repo', 'worktree', 'remove', '--force', str(wt)])
         shutil.rmtree(tmp, ignore_errors=True)
-        sh(['git', '-C', '/repo', 'worktree', 'prune'])
     return out
 
 
